@@ -95,7 +95,8 @@ class CheckC02(core.Check):
         for i in range(parsed.nmsgs):
             w, r = ("A", "B") if i % 2 == 0 else ("B", "A")
             lw = c.op("hs_write", w, pay="gen:%d:hp%d.%d" % (pays[i], seed, i), buf=sessions.BIGBUF, out="m%d" % i)
-            lr = c.op("hs_read", r, msg="$m%d" % i, buf=sessions.BIGBUF)
+            # payload buffers of every legal size: exact, a few spare bytes, message length, large
+            lr = c.op("hs_read", r, msg="$m%d" % i, buf=rnd.choice([sessions.BIGBUF, pays[i], pays[i] + rnd.randrange(1, 16), pays[i] + 16]))
             hs.append((lw, lr, "hp%d.%d" % (seed, i), pays[i]))
         c.meta["hs"] = hs
         stateless = rnd.random() < 0.4
@@ -114,10 +115,10 @@ class CheckC02(core.Check):
             if stateless:
                 n = cnt[d] if rnd.random() < 0.5 else rnd.getrandbits(64) % (2**64 - 1)
                 lw = c.op("st_write", w, n=n, pay="gen:%d:tp%d.%d" % (ln, seed, k), buf=sessions.BIGBUF, out="t%d" % k)
-                lr = c.op("st_read", r, n=n, msg="$t%d" % k, buf=sessions.BIGBUF)
+                lr = c.op("st_read", r, n=n, msg="$t%d" % k, buf=rnd.choice([sessions.BIGBUF, ln, ln + rnd.randrange(1, 16), ln + 16]))
             else:
                 lw = c.op("t_write", w, pay="gen:%d:tp%d.%d" % (ln, seed, k), buf=sessions.BIGBUF, out="t%d" % k)
-                lr = c.op("t_read", r, msg="$t%d" % k, buf=sessions.BIGBUF)
+                lr = c.op("t_read", r, msg="$t%d" % k, buf=rnd.choice([sessions.BIGBUF, ln, ln + rnd.randrange(1, 16), ln + 16]))
             cnt[d] += 1
             tr.append((lw, lr, "tp%d.%d" % (seed, k), ln))
         c.meta["tr"] = tr
